@@ -207,6 +207,17 @@ func init() {
 			emit(501, starts[0].tok(), TList{set(1, 300)})
 			emit(501, starts[1].tok(), TList{set(1, 0)})
 			emit(501, starts[1].tok(), TList{set(1, 3), set(1, 5), TList{TI(3), TI(1)}})
+			{
+				// every two-byte id with a 255-byte value (65535 bytes of elements), then the wire;
+				// and a legacy value of 16384 words
+				ops := TList{}
+				for id := 1; id <= 255; id++ {
+					ops = append(ops, TList{TI(1), TI(int64(id)), TBytes(bytes.Repeat([]byte{byte(id)}, 255))})
+				}
+				ops = append(ops, TList{TI(4)}, TList{TI(3), TI(255)})
+				emit(501, starts[2].tok(), ops)
+				emit(501, starts[3].tok(), TList{TList{TI(1), TI(0), TBytes(make([]byte, 65536))}, TList{TI(3), TI(0)}})
+			}
 			idsPool := []int{0, 1, 2, 14, 15, 16, 255}
 			lens := []int{0, 1, 3, 4, 16, 17, 255, 256, 300}
 			for i := 0; i < n; i++ {
